@@ -113,7 +113,9 @@ MemPre(s, ev) ==
     [] e = "set_offset_mode" -> s.m = "a64mem" /\ ev.n \in 0..2
     [] e \in {"pre_off", "post_off"} -> s.m = "a64mem" /\ Is64(ev.v)
     [] e = "make" -> IF s.m = "x86mem"
-                       THEN ev.sh \in 0..3 /\ ev.size \in 0..255 /\ ev.brt \in 0..31 /\ ev.irt \in 0..31
+                       THEN /\ ev.sh \in 0..3 /\ ev.size \in 0..255 /\ ev.brt \in 0..31 /\ ev.irt \in 0..31
+                            /\ (ev.form = "li" /\ ev.base_fn # "ptr") => RT[ev.irt].grp = GrpGp      \* <size>_ptr(label, index) exists for Gp indexes only
+                            /\ ev.sfx # "" => ev.form \in {"a", "ai"}                              \* ptr_abs / ptr_rel take an absolute address
                        ELSE ev.sh \in 0..31 /\ ev.sop \in 0..13 /\ ev.brt \in 0..31 /\ ev.irt \in 0..31
     [] e = "make_base" -> ev.rt \in 0..31 /\ Is32(ev.id) /\ Is32(ev.off)
     [] OTHER -> TRUE
